@@ -91,6 +91,11 @@ struct VMMon
     // of the context, so the monitor must never keep a context alive.
     std::vector<std::weak_ptr<sqf::runtime::context>> ctx_ids;
     long long cur_slice_start_instr = 0;
+    // scripts that left the scheduler's list without finishing through a slice (dropped after terminate): [ctx, terminate flag last seen, seq]
+    struct Drop { int ctx; bool term; long long seq; };
+    std::vector<Drop> drops;
+    std::vector<char> ctx_term_seen, ctx_gone, ctx_finished;
+    void track_contexts(sqf::runtime::runtime& r);
     // instruction trace
     struct Tr { int ctx; long long line, col; std::string text; size_t frames; };
     std::vector<Tr> trace;
